@@ -15,6 +15,25 @@ from .mirparse import split_top
 from .resolve import parse_callee
 
 
+def records_eq(a, b):
+    """byte equality of two record sequences (bool | z3 Bool): the byte-level coding of a record is injective"""
+    if len(a) != len(b):
+        return False
+    out = []
+    for x, y in zip(a, b):
+        if x[0] != y[0] or x[1] != y[1] or x[2] != y[2]:
+            return False
+        if x[2] in ('message', 'map-entry'):
+            out.append(records_eq(x[3], y[3]))
+        elif x[2].startswith('packed-'):
+            if len(x[3]) != len(y[3]):
+                return False
+            out += [val_eq(p, q) for p, q in zip(x[3], y[3])]
+        else:
+            out.append(val_eq(x[3], y[3]))
+    return b_and(*out)
+
+
 class WireBuf:
     """abstract protobuf wire buffer: a sequence of (field number, wire type, kind, payload) records"""
 
@@ -144,6 +163,8 @@ class Models:
         'Ordering': {'Less': -1, 'Equal': 0, 'Greater': 1},
         'Level': {'Error': 1, 'Warn': 2, 'Info': 3, 'Debug': 4, 'Trace': 5},
         'LevelFilter': {'Off': 0, 'Error': 1, 'Warn': 2, 'Info': 3, 'Debug': 4, 'Trace': 5},
+        # oci_spec::image::MediaType (external): only the open variant is constructed by the crate
+        'MediaType': {'Other': 15},
     }
 
     def adt(self, path, ops):
@@ -165,6 +186,8 @@ class Models:
             return Agg(list(ops), p)
         if segs[-1] == 'RangeFull':
             return Agg([], 'RangeFull')
+        if segs[-1] in ('Local', 'Utc') and not ops:
+            return Agg([], segs[-1])        # chrono time-zone markers
         if segs[-1] in ('RangeFrom', 'RangeTo') and len(ops) == 1:
             return Agg(list(ops), segs[-1])
         if p in ('std::ops::Range', 'std::ops::RangeInclusive', 'Range', 'RangeInclusive'):
@@ -959,6 +982,12 @@ class Models:
             r.discr, r.vname, r.f = 1, 'Some', [v]
         return Ref(r.f, 0)
 
+    def m_Option__get_or_insert(self, c, o, v):
+        r = deref(o)
+        if r.discr == 0:
+            r.discr, r.vname, r.f = 1, 'Some', [v]
+        return Ref(r.f, 0)
+
     def m_Option__filter(self, c, o, f):
         if o.discr == 1 and self.ctx.branch(self.call_closure(f, Ref(o.f, 0))):
             return o
@@ -1116,6 +1145,8 @@ class Models:
         v = deref(x)
         if isinstance(v, Enum) and v.ty == 'Cow':
             return v.f[0] if v.discr == 0 else Ref(v.f, 0)
+        if isinstance(v, SymString):
+            return v          # identity-only string: its &str view is itself
         if isinstance(v, RString):
             return v.s
         if isinstance(v, (RVec, SliceView)):
@@ -1481,11 +1512,24 @@ class Models:
         v = deref(x)
         if isinstance(v, str):
             return RString(v)
+        if isinstance(v, SymString):
+            return v
         if isinstance(v, RString):
             return RString(v.s)
         if isinstance(v, int):
             return RString(str(v))
+        if is_bv(v):
+            # symbolic integer: travels as a token; std's integer Display/FromStr round trip is assumed exact
+            toks = self.ctx.notes.setdefault('numtokens', {})
+            tok = f'\u00a7i{len(toks)}\u00a7'
+            toks[tok] = v
+            return RString(tok)
         return RString(self.display(v))
+
+    def m_slice__join(self, c, v, sep):
+        sep = deref(sep)
+        sep = sep.s if isinstance(sep, RString) else sep
+        return RString(sep.join((deref(x).s if isinstance(deref(x), RString) else deref(x)) for x in items_of(v).items))
 
     def m_String__new(self, c):
         return RString('')
@@ -1606,6 +1650,9 @@ class Models:
             return Err(Opaque('ParseFloatError', s)) if v is None else Ok(v)
         if ty in INT_TYS:
             signed, bits = INT_TYS[ty]
+            toks = self.ctx.notes.get('numtokens', {})
+            if s in toks and is_bv(toks[s]) and toks[s].size() == bits:
+                return Ok(toks[s])
             if re.fullmatch(r'[+-]?\d+' if signed else r'\+?\d+', s):
                 n = int(s)
                 lo = -(1 << (bits - 1)) if signed else 0
@@ -1810,6 +1857,105 @@ class Models:
         return Enum('LevelFilter', 0, 'Off', [])
 
     m_log__max_level = m_max_level
+
+    # ------------------------------------------------------------------ chrono (external): instants are opaque tokens
+    def m_DateTime__to_rfc3339(self, c, dt):
+        dt = deref(dt)
+        toks = self.ctx.notes.setdefault('datetokens', {})
+        tok = f'\u00a7d{len(toks)}\u00a7'
+        toks[tok] = dt
+        return RString(tok)
+
+    def m_DateTime__parse_from_rfc3339(self, c, s):
+        s = deref(s)
+        s = s.s if isinstance(s, RString) else s
+        toks = self.ctx.notes.get('datetokens', {})
+        if s in toks:
+            return Ok(toks[s])
+        return Err(Opaque('chrono::ParseError', s))
+
+    def m_DateTime__with_timezone(self, c, dt, tz):
+        return deref(dt)
+
+    def m_Local__now(self, c):
+        n = self.ctx.notes.setdefault('now', [0])
+        n[0] += 1
+        return Agg([z3.Int(f'now{n[0]}')], 'DateTime')
+
+    # ------------------------------------------------------------------ ocipkg (external): an artifact is a list of (descriptor, blob)
+    # contract modelled: add_layer appends a descriptor (media type, digest of the blob, annotations) and stores the blob;
+    # digests are equal iff the blobs are equal; build/reopen is the identity; get_layers returns (descriptor, blob) in manifest order.
+    def _blob_of(self, b):
+        b = deref(b)
+        if isinstance(b, SliceView):
+            b = b.vec
+        if not isinstance(b, Blob):
+            raise Unsupported('layer blob that is not an encoded message')
+        return b
+
+    def m_Message__encode_to_vec(self, c, msg):
+        ty = parse_callee(c).self_ty
+        sub = WireBuf()
+        self.it.run_body(self._msg_body('encode_raw', ty), [msg if isinstance(msg, Ref) else ref_to(msg), ref_to(sub)])
+        return Blob(sub.records)
+
+    def m_Message__decode(self, c, buf):
+        ty = parse_callee(c).self_ty
+        b = self._blob_of(buf)
+        m = self.default_of(ty)
+        r = self._merge_message_into(ty, ref_to(m), b.records)
+        return Ok(m) if r.vname == 'Ok' else r
+
+    def m_OciArtifactBuilder__add_layer(self, c, builder, media_type, blob, annotations):
+        st = deref(builder)
+        b = self._blob_of(blob)
+        k = len(st.f[1].items)
+        dig = z3.BitVec(f'digest{k}', 64)
+        for j, (_, other, odig) in enumerate(st.f[2]):
+            self.ctx.assume((dig == odig) == z3bool(records_eq(b.records, other.records)))
+        desc = Agg([deep_clone(deref(media_type)), SymString(f'sha256:<layer {k}>', dig), Some(deep_clone(deref(annotations)))], 'Descriptor')
+        st.f[1].items.append(desc)
+        st.f[2].append((desc, b, dig))
+        return Ok(deep_clone(desc))
+
+    def m_OciArtifactBuilder__build(self, c, builder):
+        st = deref(builder)
+        return Ok(Agg([st.f[0], st.f[1], st.f[2]], 'OciArtifact'))
+
+    def m_OciArtifact__get_layers(self, c, art):
+        st = deref(art)
+        return Ok(RVec([Agg([deep_clone(d), b], '(Descriptor, Vec<u8>)') for d, b, _ in st.f[2]]))
+
+    def m_OciArtifact__get_manifest(self, c, art):
+        st = deref(art)
+        return Ok(Agg([deep_clone(st.f[0]), RVec([deep_clone(d) for d in st.f[1].items])], 'ImageManifest'))
+
+    def m_Image__get_manifest(self, c, art):
+        return self.m_OciArtifact__get_manifest(c, art)
+
+    def m_ImageManifest__artifact_type(self, c, m):
+        return Ref(deref(m).f, 0)
+
+    def m_ImageManifest__layers(self, c, m):
+        return Ref(deref(m).f, 1)
+
+    def m_Descriptor__media_type(self, c, d):
+        return Ref(deref(d).f, 0)
+
+    def m_Descriptor__digest(self, c, d):
+        return Ref(deref(d).f, 1)
+
+    def m_Descriptor__annotations(self, c, d):
+        return Ref(deref(d).f, 2)
+
+    def m_Digest__new(self, c, s):
+        s = deref(s)
+        if isinstance(s, SymString):
+            return Ok(s)
+        t = s.s if isinstance(s, RString) else s
+        if re.fullmatch(r'[a-z0-9]+:[0-9a-f]+', t):
+            return Ok(RString(t))
+        return Err(Opaque('anyhow::Error', 'invalid digest'))
 
     # ------------------------------------------------------------------ prost::encoding as abstract wire records
     # A buffer is a WireBuf: records (tag, wire_type, kind, payload). Byte-level varint/fixed coding lives in the
